@@ -77,11 +77,13 @@ def ref_dedupe(xs):
 '''
 
 
-def mk_spec(fnames, form, maxlen, timeout, colltype="vector"):
+def mk_spec(fnames, form, maxlen, timeout, colltype="vector", n_range=None):
     """pipeline = composition of FUNS[f] for f in fnames (applied left to right to the data)"""
     needs_n = [f for f in fnames if FUNS[f][3] is not None]
     lo = max([FUNS[f][3][0] for f in needs_n], default=0)
     hi = min([FUNS[f][3][1] for f in needs_n], default=0)
+    if n_range is not None:
+        lo, hi = n_range
     # lisp
     if form == "lazy-seq":
         expr = "coll"
@@ -190,9 +192,18 @@ def run(rep, tier, seed):
         for form in FORMS:
             specs.append(mk_spec([f], form, maxlen, to))
     rnd = random.Random(seed)
+    # early termination is where stateful transducers interact: every function followed by `take` (the terminating step is
+    # called again by mapcat / cat / interpose / partition-by after it has returned `reduced`) and `take` followed by every function
+    for f in FUNS:
+        if FUNS[f][3] is None:
+            specs.append(mk_spec([f, "take"], "into", 2 if quick else 3, to, n_range=(1, 2)))
+            if not quick:
+                specs.append(mk_spec(["take", f], "into", 3, to, n_range=(1, 2)))
+                specs.append(mk_spec([f, "take"], "sequence", 3, to, n_range=(1, 2)))
+                specs.append(mk_spec([f, "take"], "eduction", 3, to, n_range=(1, 2)))
     pairs = [p for p in itertools.permutations(FUNS, 2) if sum(1 for f in p if FUNS[f][3]) <= 1]
     rnd.shuffle(pairs)
-    for p in pairs[:(8 if quick else 120)]:
+    for p in pairs[:(4 if quick else 120)]:
         for form in (["into", "lazy-seq"] if quick else ["into", "lazy-seq", "sequence", "transduce"]):
             specs.append(mk_spec(list(p), form, 2 if quick else 3, to))
     if not quick:
